@@ -31,6 +31,82 @@ class Inconclusive(Exception):
     """Solver said unknown / budget exhausted."""
 
 
+class HarnessLimit(BaseException):
+    """The HARNESS (not the library) failed: it reached for a private name / signature that no longer exists. BaseException so
+    that the broad `except Exception` blocks of replayers do not turn it into a 'reproduced' violation."""
+
+
+_VERIF_DIR = __import__("os").path.dirname(__import__("os").path.dirname(__import__("os").path.abspath(__file__)))
+_HARNESS_ERRORS = (AttributeError, NameError, ImportError, TypeError, KeyError, IndexError, AssertionError, UnboundLocalError)
+
+
+def _defined_in_checker(obj):
+    """Is `obj` (or its class / underlying function) defined in a file of the checker?"""
+    import inspect
+    import os
+
+    for o in (obj, getattr(obj, "__func__", None), getattr(obj, "__wrapped__", None), type(obj)):
+        if o is None:
+            continue
+        try:
+            fn = os.path.abspath(inspect.getsourcefile(o) or "")
+        except (TypeError, OSError):
+            continue
+        if fn.startswith(_VERIF_DIR) and "/.venv/" not in fn:
+            return True
+    return False
+
+
+def harness_originated(e):
+    """True when `e` is of the checker's own making rather than the library's:
+    (a) it never passed through a frame of the library (e.g. `sched._in_queue` in driver code after a rename), or
+    (b) library code tripped over an INCOMPLETE stand-in of the checker: AttributeError on an object defined in /verif, or a
+        TypeError about the signature of a callable defined in /verif (the real dependency has that attribute / parameter)."""
+    import os
+    import re
+    import sys
+
+    try:
+        import black_it
+
+        lib = os.path.dirname(os.path.abspath(black_it.__file__))
+    except Exception:  # noqa: BLE001
+        lib = "/nonexistent"
+    tb = e.__traceback__
+    frames = []
+    while tb is not None:
+        frames.append(os.path.abspath(tb.tb_frame.f_code.co_filename))
+        tb = tb.tb_next
+    if not any(fn.startswith(lib) for fn in frames):
+        return any(fn.startswith(_VERIF_DIR) and "/.venv/" not in fn for fn in frames)
+    if isinstance(e, AttributeError) and getattr(e, "obj", None) is not None and _defined_in_checker(e.obj):
+        return True
+    if isinstance(e, TypeError):
+        m = re.match(r"^([A-Za-z_][\w.]*)\(\) (got an unexpected keyword|got multiple values|takes|missing)", str(e))
+        if m:
+            leaf = m.group(1).split(".")
+            for mod in list(sys.modules.values()):
+                f = getattr(mod, "__file__", None) or ""
+                if not (os.path.abspath(f).startswith(_VERIF_DIR) and "/.venv/" not in f):
+                    continue
+                o = mod
+                for part in leaf:
+                    o = getattr(o, part, None)
+                    if o is None:
+                        break
+                if o is not None and callable(o):
+                    return True
+    return False
+
+
+def reraise_if_harness(e):
+    """First statement of every broad except-block in harness code: an error of the harness's own making is not evidence."""
+    if isinstance(e, HarnessLimit):
+        raise e
+    if isinstance(e, _HARNESS_ERRORS) and harness_originated(e):
+        raise HarnessLimit(f"{type(e).__name__}: {e} (raised by checker code, not by the library: a private name or signature the harness relies on has changed)") from e
+
+
 # ----------------------------------------------------------------------------
 # lifting
 
@@ -1025,7 +1101,7 @@ class Explorer:
                         self.stats.q_unknown -= 1 if self.stats.q_unknown > 0 else 0
             except PathAbort:
                 self.stats.aborted += 1
-            except (SymUnsupported, Inconclusive) as e:
+            except (SymUnsupported, Inconclusive, HarnessLimit) as e:
                 self.incomplete = self.incomplete or f"{type(e).__name__}: {e}"
                 self.stats.aborted += 1
             except z3.Z3Exception as e:  # the ENGINE failed to build a term (sort mismatch, ...): a gap of the lifting, not a verdict
@@ -1033,6 +1109,11 @@ class Explorer:
                 self.stats.aborted += 1
             except Exception as e:  # the real code raised on a feasible path: a candidate violation, decided by replay
                 import traceback as _tb
+
+                if isinstance(e, _HARNESS_ERRORS) and harness_originated(e):
+                    self.incomplete = self.incomplete or f"harness limitation: {type(e).__name__}: {e} (raised by checker code: a private name or signature it relies on has changed)"
+                    self.stats.aborted += 1
+                    continue
 
                 self.stats.paths += 1
                 ob = self.stats.obligations.setdefault("no_unexpected_exception", [0, 0])
